@@ -20,7 +20,16 @@ def run(tier):
         for op in range(3):
             for nk in range(3):
                 jobs.append(dict(base, harness="VerifC19Clone", params={"pa": pa, "la": 1, "op": op, "nk": nk, "ln": 1}))
-    groups = [Group("attr", jobs)]
-    return run_property("C19", tier, groups, required_covers=["strict chain", "equal pair", "plain assignment shares the attribute map"],
+    vj = []
+    vbase = dict(unwind=120, timeout_s=600, summarise=SUM, max_witnesses=1, witness_every=200, panic_is_violation=True)
+    for nk in (0, 1, 2):
+        for k0 in (range(6) if tier != "quick" else [0, 3]):
+            for l0 in ([1, 2] if tier == "quick" else [0, 1, 2, 3]):
+                for l1 in ([1] if nk < 2 or tier == "quick" else [0, 1, 2]):
+                    if nk == 0 and (k0, l0) != (0, 1):
+                        continue
+                    vj.append(dict(vbase, harness="VerifC19TextRoundTrip", params={"nk": nk, "k0": k0, "len0": l0, "len1": l1}))
+    groups = [Group("attr", jobs), Group("versiontest", vj)]
+    return run_property("C19", tier, groups, required_covers=["strict chain", "equal pair", "plain assignment shares the attribute map", "set written"],
                         assumptions=["sets are built through SetAttr on keys 0, 5, 10 with symbolic values and a symbolic flag mask"],
                         bounds={"keys": 3, "value_len": lens})
